@@ -308,7 +308,7 @@ pub fn prop() -> Prop {
         id: "C15",
         check,
         describe,
-        rule: "the harness generates an abstract constant-sum game and serialises it itself: JSON DSL (keys in stream-chosen order, optional chance infosets) or Gambit .efg (constant c in {0,+-1,10,2.5}, payoffs split between interior outcomes and leaves, outcomes shared by number, rational/decimal numbers, named and unnamed infosets, member nodes listing actions in different orders, labels needing escapes, comments, line/space separators) x -m x -d x -t 1..300 x -p {0,1,2,4} x -c x -r x file/stdin x stdout/-o (the -o destination is new or holds a longer older result); oracle: exit 0, one JSON object with the seven documented keys, strategies valid over exactly the file's infosets (single-action ones included), and utilities/regrets equal (1e-9 relative) to an independent evaluation of the printed strategies with each player's own payoffs. Non-trivial = printed regret > 0 and (Gambit with c != 0 or interior payoffs, or both players have >= 2 infosets); distinct by (file text, arguments).",
+        rule: "the harness generates an abstract constant-sum game and serialises it itself: JSON DSL (keys in stream-chosen order, optional chance infosets) or Gambit .efg (constant c in {0,+-1,10,2.5}, payoffs split between interior outcomes and leaves, outcomes shared by number, rational/decimal numbers, named and unnamed infosets, member nodes listing actions - and members of a chance infoset their outcomes, also equally labelled ones - in different orders, labels needing escapes, comments, line/space separators) x -m x -d x -t 1..300 x -p {0,1,2,4} x -c x -r x file/stdin x stdout/-o (the -o destination is new or holds a longer older result); oracle: exit 0, one JSON object with the seven documented keys, strategies valid over exactly the file's infosets (single-action ones included), and utilities/regrets equal (1e-9 relative) to an independent evaluation of the printed strategies with each player's own payoffs. Non-trivial = printed regret > 0 and (Gambit with c != 0 or interior payoffs, or both players have >= 2 infosets); distinct by (file text, arguments).",
         max_len: 1000,
         cases_quick: 60_000,
         cases_thorough: 600_000,
